@@ -3,6 +3,7 @@
 #include <mustache/utils/profiler.hpp>
 
 #include <cstring>
+#include <algorithm>
 
 #include <mustache/ecs/world.hpp>
 
@@ -260,7 +261,8 @@ void EntityManager::markDirty(Entity entity, ComponentId component_id) noexcept 
 void EntityManager::onLock() {
     MUSTACHE_PROFILER_BLOCK_LVL_0(__FUNCTION__ );
 
-    const auto thread_count = world_.dispatcher().maxThreadCount();
+    // one buffer per possible thread id: ids go up to the dispatcher's own thread count, which may exceed the core count
+    const auto thread_count = std::max(world_.dispatcher().maxThreadCount(), world_.dispatcher().threadCount() + 1u);
     temporal_storages_.resize(thread_count);
     next_entity_id_ = static_cast<uint32_t >(entities_.size());
 }
